@@ -31,6 +31,21 @@ CHECKS = {
  "C18": dict(engine=E1, sec="§6 C18", technique="exhaustive differential enumeration: twin containers differing only in router",
    text="Every table of the common fragment (literal roots incl. nested, literal or {v} route tokens, literals with regex metacharacters) times every request is dispatched on a CurlyRouter and a RouterJSR311 twin; status, route, parameters and Allow set must agree.",
    note="Recorded finding F12 (non-canonical paths: Curly routes, JSR311 404) matched by a narrow signature."),
+ "C05": dict(engine="E1 enum on the instrumented build (cmd/vcheck/c05.go; map iteration order owned through engine/vsched.MapOrder)", sec="§6 C05", technique="bounded exhaustive enumeration of Produces lists x abstract Accept headers x all optional-whitespace renderings; reference ranking; enumeration of every map iteration order where the lookup reaches a map range",
+   text="Every non-empty duplicate-free Produces sequence over {json, xml, custom vnd} x every Accept header of 0-2 abstract ranges (plus 3-range and 13-20-range families) x 64 whitespace renderings x DefaultResponseMimeType x registered-writer set: Content-Type equals the reference ranking (q descending, header order on ties, */* = first Produces entry) and the body decodes; all renderings agree; never 406 after the router admitted; every iteration order of the accessor map gives the same answer.",
+   note="Instrumenter owns the map range in accessorAt; other map ranges are listed in the evidence. Recorded finding F14 (absent Accept + package default) matched by a narrow signature."),
+ "C07": dict(engine=E1, sec="§6 C07", technique="exhaustive enumeration of entry point x switches x Accept-Encoding x pre-set encodings x payload/chunking x outcome kind x provider with an identity twin and a ledger provider",
+   text="Full product for 'Hello World' over 6 entry paths, container switch, route override, 9 Accept-Encoding values, pre-encoded / already-compressing writers, 7 outcome kinds (incl. 404/405 and recovered panics) and 3 providers, plus every payload x chunking on every entry; each case next to an identity twin: clause-by-clause oracle (labelled gzip/deflate, mentioned in Accept-Encoding, enabled for that request, strict decode to exactly the bytes written, never twice, nothing when the writer arrived encoded), ledger balanced.",
+   note="Recorded finding F9 (ServeHTTP encodes despite route override false) matched narrowly: only correctly-encoded responses on exactly that configuration."),
+ "C10": dict(engine="E1/E2 crash-point enumeration executed under E3's controlled scheduler (cmd/vcheck/c10.go)", sec="§6 C10", technique="exhaustive crash-point enumeration (panic positions x values x recovery x encoding x provider x entry x router) and request sequences, each run as a single controlled thread so a leaked lock is a deadlock verdict",
+   text="Every panic position of 10 chain shapes (filters before/after passing on, handler before/after partial output/after WriteEntity, the condition function, also on requests that fail routing) x panic value x recovery {off, default, custom} x encoding x provider under a ledger x entry x router; recover handler called exactly once with the value, nothing escapes (or the identical value with recovery off), complete decodable body, ledger balanced, and a probe set (request, Add, Remove) answered as by a fresh container; plus all sequences of 2 (3) requests over {normal, panic at p}.",
+   note="Default recover handler output compared up to the panic value line. Panics of plain http.Handlers are outside the statement."),
+ "C15": dict(engine=E1, sec="§6 C15", technique="exhaustive enumeration of Response call sequences x fault position x short-write length over a counting, failing writer",
+   text="Every sequence (optional first call of 11 kinds x status x value, then 0-2 (3) raw Writes) x pretty-print x Accept x {no coding with the k-th write accepting j bytes and failing, gzip coding fault-free}: StatusCode() equals the status the writer received, ContentLength() the bytes it accepted (or the decoded length under coding), the failing call returns the injected error.",
+   note="Observed by a container filter after the handler inside a real dispatch."),
+ "C16": dict(engine="E1 enum + E2 hist", sec="§6 C16", technique="exhaustive enumeration of values x Content-Type spellings x encodings through the real writer and reader; explicit-state search over sequences of well-formed and broken bodies on one provider",
+   text="90 values (64-bit extremes, unicode, metacharacters, nested slices) x codec x Content-Type spelling x Content-Encoding x pretty x provider x target (struct / generic map with exact numbers) round-trip through WriteEntity and ReadEntity; every sequence of <= 3 (4) bodies over 13 well-formed/truncated/flipped/mis-declared/empty bodies: same result as when sent first on a fresh provider, broken => error, never a panic, provider ledger clean.",
+   note="Recorded finding F13 (damaged gzip trailer not reported) matched narrowly: intact payload, correct value returned."),
  "C06": dict(engine=MIX, sec="§6 C06", technique="exhaustive enumeration of filter configurations and request sequences against a ten-line model; stateless exploration of all schedules of concurrent requests (preemption-bounded) with happens-before race detection",
    text="E1: all 29k+ assignments of five filter behaviours to up to 2+2+2 filters x 5 request kinds, per-request event log (with the view each filter/handler has of the pair, attributes, context and writer) equal to the model. E2: every sequence of <= 3 (4) requests on one container. E3: 2 (3) concurrent requests on the instrumented real package under the controlled scheduler, yields at every filter entry/exit and handler, all schedules up to the preemption bound; supplementary free-running -race pass.",
    note="Trusted: the ten-line chain model; E3 trusted base as for C12."),
